@@ -14,7 +14,7 @@ func init() {
 			"the sweep hands every unlinked timer to exactly one of {expire callback, re-Add} and expires only on deadline < wheel time, passing that wheel time; DeleteExpired advances the wheel clock before sweeping; maintenance replays the write buffer and the caller's task before it sweeps, with a fresh clock sample; "+
 			"task replay schedules every alive node that has expiration and reads re-schedule (shared with C05.runTask). NOT decided: the bucket/span/shift arithmetic, cascading, and the 1.08 s bound itself.",
 		[]string{"the clock is monotonic between sweeps", "uint64 arithmetic per the Go spec"},
-		ruleC13Clamp, ruleC13NoDrop, ruleC13Advance, ruleC13Order, ruleC05RunTask, ruleC05Task, ruleEvict)
+		ruleC13Clamp, ruleC13NoDrop, ruleC13Span, ruleWheelShape, ruleC13Advance, ruleC13Order, ruleC05RunTask, ruleC05Task, ruleEvict)
 }
 
 const expPkg = "internal/expiration"
@@ -234,7 +234,7 @@ func ruleC13NoDrop(cx *Ctx) {
 		if fbCall != nil && linkCall != nil {
 			a := callArgs(fbCall)
 			la := callArgs(linkCall)
-			if c, ok := stripConv(a[0]).(*ssa.Call); ok && invokeName(c) == "ExpiresAt" && c.Call.Value == ssa.Value(add.Params[1]) && la[0] == fbCall.(ssa.Value) && la[1] == ssa.Value(add.Params[1]) {
+			if c, ok := stripConv(a[0]).(*ssa.Call); ok && invokeName(c) == "ExpiresAt" && c.Call.Value == ssa.Value(bparam(add, 1)) && la[0] == fbCall.(ssa.Value) && la[1] == ssa.Value(bparam(add, 1)) {
 				okAdd = true
 			}
 		}
@@ -319,7 +319,7 @@ func ruleC13Order(cx *Ctx) {
 	var r ssa.Instruction
 	allInstrs(maint, func(in ssa.Instruction) {
 		if isCallTo(in, rt) {
-			if a := callArgs(in); len(a) == 1 && a[0] == ssa.Value(maint.Params[1]) {
+			if a := callArgs(in); len(a) == 1 && a[0] == ssa.Value(bparam(maint, 1)) {
 				r = in
 			}
 		}
@@ -342,4 +342,173 @@ func ruleC13Order(cx *Ctx) {
 		})
 	}
 	cx.R.Check(okNow, rule, name, "fresh clock", cx.P.Pos(maint.Pos()), "the sweep runs against a clock sample taken right at the sweep, after the replay")
+}
+
+// ruleC13Span: the number of wheel slots a sweep visits depends on the untruncated tick delta.
+func ruleC13Span(cx *Ctx) {
+	const rule = "C13.span"
+	cx.R.Rule(rule, 1, "the loop that walks the slots of one wheel level is controlled (exit condition, or a guard around it) by the tick delta since the previous sweep without truncation to the level's size: if the delta reached the loop control only masked / modulo the bucket count, a clock jump of a whole revolution would sweep as few slots as a one-tick step and leave due timers behind")
+	wheel := cx.needField(rule, expPkg, "Variable", "wheel")
+	if wheel == nil {
+		return
+	}
+	// delta sources: (now >> s) - (prev >> s)
+	tainted := map[ssa.Value]bool{}
+	isShr := func(v ssa.Value) bool {
+		b, ok := stripConv(v).(*ssa.BinOp)
+		return ok && b.Op == token.SHR
+	}
+	funcs := cx.P.FuncsOfPkg(expPkg)
+	for _, f := range funcs {
+		allInstrs(f, func(in ssa.Instruction) {
+			if b, ok := in.(*ssa.BinOp); ok && b.Op == token.SUB && isShr(b.X) && isShr(b.Y) {
+				tainted[b] = true
+			}
+		})
+	}
+	if len(tainted) == 0 {
+		cx.R.Undecided(rule, "expiration", "tick delta", "-", "no value of the form (now >> shift) - (prev >> shift) found: the tick delta is computed differently; the rule does not apply")
+		return
+	}
+	// propagate: arithmetic that keeps the magnitude; AND / REM / narrowing drop it
+	for changed := true; changed; {
+		changed = false
+		mark := func(v ssa.Value) {
+			if !tainted[v] {
+				tainted[v] = true
+				changed = true
+			}
+		}
+		for _, f := range funcs {
+			allInstrs(f, func(in ssa.Instruction) {
+				switch x := in.(type) {
+				case *ssa.BinOp:
+					switch x.Op {
+					case token.ADD, token.SUB, token.MUL, token.SHL:
+						if tainted[x.X] || tainted[x.Y] {
+							mark(x)
+						}
+					case token.SHR, token.QUO:
+						if tainted[x.X] {
+							mark(x)
+						}
+					}
+				case *ssa.Phi:
+					for _, e := range x.Edges {
+						if tainted[e] {
+							mark(x)
+						}
+					}
+				case *ssa.Convert:
+					if tainted[x.X] {
+						if b, ok := x.Type().Underlying().(*types.Basic); ok && (b.Kind() == types.Uint64 || b.Kind() == types.Int64 || b.Kind() == types.Int || b.Kind() == types.Uint) {
+							mark(x)
+						}
+					}
+				case *ssa.Call:
+					cc := x.Common()
+					if bi, ok := cc.Value.(*ssa.Builtin); ok && (bi.Name() == "min" || bi.Name() == "max") {
+						for _, a := range cc.Args {
+							if tainted[a] {
+								mark(x)
+							}
+						}
+					}
+					if callee := origin(cc.StaticCallee()); callee != nil && !cc.IsInvoke() && len(callee.Params) == len(cc.Args) {
+						for i, a := range cc.Args {
+							if tainted[a] {
+								mark(callee.Params[i])
+							}
+						}
+					}
+				}
+			})
+		}
+	}
+	condTainted := func(v ssa.Value) bool {
+		for {
+			if u, ok := v.(*ssa.UnOp); ok && u.Op == token.NOT {
+				v = u.X
+				continue
+			}
+			break
+		}
+		b, ok := v.(*ssa.BinOp)
+		return ok && (tainted[b.X] || tainted[b.Y])
+	}
+	// slot selection: indexing the slice of one level, wheel[level][slot], with a non-constant slot
+	found := 0
+	for _, f := range funcs {
+		allInstrs(f, func(in ssa.Instruction) {
+			ia, ok := in.(*ssa.IndexAddr)
+			if !ok {
+				return
+			}
+			if _, isConst := ia.Index.(*ssa.Const); isConst {
+				return
+			}
+			// ia.X is the level slice: a load of wheel[level]
+			lvl, ok := stripLoad(ia.X).(*ssa.IndexAddr)
+			if !ok || !sameField(fieldOf(lvl.X), wheel) {
+				return
+			}
+			// only inside a function that sweeps (takes a callback) - findBucket also indexes the wheel
+			sweeps := false
+			for _, p := range outermost(f).Params {
+				if sig, ok := p.Type().Underlying().(*types.Signature); ok && sig.Params().Len() == 2 {
+					sweeps = true
+				}
+			}
+			if !sweeps {
+				return
+			}
+			// innermost loop containing the selection
+			var best map[*ssa.BasicBlock]bool
+			var header *ssa.BasicBlock
+			for _, h := range f.Blocks {
+				isHeader := false
+				for _, p := range h.Preds {
+					if h.Dominates(p) {
+						isHeader = true
+					}
+				}
+				if !isHeader {
+					continue
+				}
+				l := naturalLoop(h)
+				if l[ia.Block()] && (best == nil || len(l) < len(best)) {
+					best, header = l, h
+				}
+			}
+			if best == nil {
+				return
+			}
+			found++
+			ok2 := false
+			for b := range best {
+				if ifi, isIf := b.Instrs[len(b.Instrs)-1].(*ssa.If); isIf {
+					exits := !best[b.Succs[0]] || !best[b.Succs[1]]
+					if exits && condTainted(ifi.Cond) {
+						ok2 = true
+					}
+				}
+			}
+			for _, g := range guardsAt(header) {
+				if condTainted(g.Cond) {
+					ok2 = true
+				}
+			}
+			if id := header.Idom(); id != nil && !ok2 {
+				for _, g := range guardsAt(id) {
+					if condTainted(g.Cond) {
+						ok2 = true
+					}
+				}
+			}
+			cx.R.Check(ok2, rule, funcName(f), fmt.Sprintf("slot loop #%d", found), cx.P.where(ia), "the slot loop's exit condition (or a guard around the loop) depends on the untruncated tick delta")
+		})
+	}
+	if found == 0 {
+		cx.R.Undecided(rule, "expiration", "slot loop", "-", "no loop selecting wheel[level][slot] in a sweeping function was found; the rule does not apply")
+	}
 }
